@@ -159,7 +159,7 @@ fn rel_diff<T: Elem>(a: &[C<T>], b: &[C<T>]) -> f64 {
 // ---------------------------------------------------------------------------------------------
 // C07
 
-fn c07_fft<T: Elem>(st: &mut Stats, prop: &str, case_base: &str, fft: &Arc<dyn Fft<T>>, n: usize, rng: &mut Rng, thorough: bool) {
+pub fn c07_fft<T: Elem>(st: &mut Stats, prop: &str, case_base: &str, fft: &Arc<dyn Fft<T>>, n: usize, rng: &mut Rng, thorough: bool) {
     if n == 0 {
         return;
     }
@@ -244,7 +244,7 @@ fn c07_fft<T: Elem>(st: &mut Stats, prop: &str, case_base: &str, fft: &Arc<dyn F
 // ---------------------------------------------------------------------------------------------
 // C08
 
-fn c08_fft<T: Elem>(st: &mut Stats, prop: &str, case_base: &str, fft: &Arc<dyn Fft<T>>, n: usize, rng: &mut Rng, thorough: bool) {
+pub fn c08_fft<T: Elem>(st: &mut Stats, prop: &str, case_base: &str, fft: &Arc<dyn Fft<T>>, n: usize, rng: &mut Rng, thorough: bool) {
     if n == 0 {
         return;
     }
@@ -417,7 +417,7 @@ pub fn shape_matrix<T: Elem>(fft: &dyn Fft<T>, n: usize, thorough: bool) -> Vec<
     v
 }
 
-fn c09_fft<T: Elem>(st: &mut Stats, prop: &str, case_base: &str, fft: &Arc<dyn Fft<T>>, n: usize, rng: &mut Rng, thorough: bool) {
+pub fn c09_fft<T: Elem>(st: &mut Stats, prop: &str, case_base: &str, fft: &Arc<dyn Fft<T>>, n: usize, rng: &mut Rng, thorough: bool) {
     if n == 0 {
         // domain note (DESIGN.md C09): "multiple of n" is degenerate for n = 0; observed behaviour is recorded, not judged
         let r = invoke(&**fft, &[zero::<T>(); 3], &plain_shape(&**fft, Entry::Inplace, 3));
@@ -496,7 +496,7 @@ fn c09_fft<T: Elem>(st: &mut Stats, prop: &str, case_base: &str, fft: &Arc<dyn F
 // ---------------------------------------------------------------------------------------------
 // C15
 
-fn c15_fft<T: Elem>(st: &mut Stats, prop: &str, case_base: &str, fft: &Arc<dyn Fft<T>>, n: usize, rng: &mut Rng, thorough: bool) {
+pub fn c15_fft<T: Elem>(st: &mut Stats, prop: &str, case_base: &str, fft: &Arc<dyn Fft<T>>, n: usize, rng: &mut Rng, thorough: bool) {
     if n == 0 {
         return;
     }
@@ -561,7 +561,7 @@ fn c15_fft<T: Elem>(st: &mut Stats, prop: &str, case_base: &str, fft: &Arc<dyn F
 // ---------------------------------------------------------------------------------------------
 // C03
 
-fn c03_fft<T: Elem>(st: &mut Stats, prop: &str, case_base: &str, fft: &Arc<dyn Fft<T>>, n: usize, rng: &mut Rng, thorough: bool, light: bool) {
+pub fn c03_fft<T: Elem>(st: &mut Stats, prop: &str, case_base: &str, fft: &Arc<dyn Fft<T>>, n: usize, rng: &mut Rng, thorough: bool, light: bool) {
     let z = zero::<T>();
     if n == 0 {
         for entry in ALL_ENTRIES {
